@@ -1970,6 +1970,9 @@ dnsname_to_labels(u8 *const buf, size_t buf_len, off_t j,
 			/* append length of the label. */
 			const size_t label_len = name - start;
 			if (label_len > 63) return -1;
+			/* an empty label before a dot (leading dot, "..") cannot be
+			 * encoded: a zero length octet would end the name early */
+			if (label_len == 0) return -1;
 			if ((size_t)(j+label_len+1) > buf_len) return -2;
 			if (table) dnslabel_table_add(table, start, j);
 			buf[j++] = (ev_uint8_t)label_len;
